@@ -218,6 +218,20 @@ def check(ctx, fx):
         name = qa.split("::")[-1]
         only_a = sorted((sa - sb).elements())
         only_b = sorted((sb - sa).elements())
+        if only_a or only_b:
+            # a local variable may be called differently in the two copies: compare again with local names blanked
+            la = {"%s" % v["name"] for b in fa["blocks"] for st in b["stmts"] if st["k"] == "decl" for v in st["vars"]}
+            lb = {"%s" % v["name"] for b in fb["blocks"] for st in b["stmts"] if st["k"] == "decl" for v in st["vars"]}
+
+            def blank(items, names):
+                out = []
+                for (t, w) in items:
+                    for nm in sorted(names, key=len, reverse=True):
+                        t = re.sub(r"\b%s\b" % re.escape(nm), "$local", t)
+                    out.append((t, w))
+                return sorted(out)
+            if blank(only_a, la) == blank(only_b, lb):
+                only_a, only_b = [], []
         ctx.check("W1", "%s: same validation conditions in both types" % name, not only_a and not only_b,
                   "%d guarded failing edges" % sum(sa.values()),
                   "ada::url refuses on %s which ada::url_aggregator does not; ada::url_aggregator refuses on %s which ada::url "
